@@ -194,7 +194,8 @@ def run_text(shard):
     rows = [('stereo', s) for s in inputs.ring_stereo_family()]
     rows += [('special', s) for s in ('C[CH]C |^1:1|', '[CH2]CC[CH2] |^1:0,3|', 'C[O] |^1:1|', '[Cl] |^1:0|', 'O=[N]=O |^1:1|', 'C[Sn](C)C |^1:1|', '[Na] |^1:0|', '[H] |^1:0|', 'CC(C)(C)[O] |^1:4|', 'C[S] |^1:1|', '[Na+].[Cl-]', 'CC(=O)[O-].[Na+]', 'c1ccccc1.Cl', '[13CH3]C', '[2H]C([2H])C', 'c1cc[nH]c1', 'c1ccncc1',
                                       'C[N+](C)(C)C', 'F[C@](Cl)(Br)I', '[C@H](F)(Cl)Br', 'C[C@]12CC[C@H](CC1)C2', 'CC=[C@]=CC', 'C[C@@H]1CCCC[C@H]1C', 'C/C=C/C=C\\C', 'C/C=C\\1/CCCC1=O', 'C1=C/CCCCCC/1',
-                                      'C[C@H]1CC[C@@H](C)CC1', 'OC[C@H]1O[C@H](O)[C@H](O)[C@@H](O)[C@@H]1O', 'C~[Fe]', 'C[C@H](O)CC.C[C@@H](O)CC', 'C[C@]12CCC(=O)C=C1CC[C@@H]1[C@@H]2CC[C@]2(C)[C@@H](O)CC[C@@H]12')]
+                                      'C[C@H]1CC[C@@H](C)CC1', 'OC[C@H]1O[C@H](O)[C@H](O)[C@@H](O)[C@@H]1O', 'C~[Fe]', '[C]~[Pd]', '[B]~[Pd]', '[P]~[Pd]', '[S](~[Cu])~[Cu]', '[C](~[Pd])~[Pd]', 'C(~[Pd])~[Pd]', '[C].[Pd]',
+                                      'CC(O)=[C@]=C(N)F', 'OC(C)=[C@@]=C(N)F', 'CC(Cl)=[C@]=C(C)Br', 'FC(Cl)=[C@]=C(Br)I', 'C[C@H](O)CC.C[C@@H](O)CC', 'C[C@]12CCC(=O)C=C1CC[C@@H]1[C@@H]2CC[C@]2(C)[C@@H](O)CC[C@@H]12')]
     rows += [('interdependent', s) for s in inputs.interdependent_family()]
     rows += [('corpus', s) for s in M.corpus(stride=32 if tier == 'quick' else 4)]
     for i, (fam, s) in enumerate(rows):
